@@ -348,6 +348,13 @@ func tail(s string, n int) string {
 	return s
 }
 
+// mutations of one base document: the type confusions at every member position, and the
+// value-level defects of C05's generator (malformed names, annotation keys with empty parts,
+// paths, permissions, versions ...): content a validator sees after the types were right.
+func mutations(t gen.M) []gen.Mutation {
+	return append(gen.Confusions(t), gen.Defects(t)...)
+}
+
 func main() {
 	for i, a := range os.Args {
 		if a == "-bgworker" && i+1 < len(os.Args) {
@@ -432,7 +439,7 @@ func main() {
 	var bgMu sync.Mutex
 	mkRule := func() string {
 		return fmt.Sprintf("(a) %d base documents x every member position (present members, absent optional members, first/last list elements, one unknown member per object) x an 18-value type-confusion domain "+
-		"(absent, null, strings, 0, -1, 2^32, 2^63, below int64, 1.5, true, [], [null], [\"\"], [[]], [{}], {}, {x:null}, deep nesting): %d documents (+%d confusion pairs), JSON and YAML, through ParseSpec, ReadSpec, cache Refresh and every query, "+
+		"(absent, null, strings, 0, -1, 2^32, 2^63, below int64, 1.5, true, [], [null], [\"\"], [[]], [{}], {}, {x:null}, deep nesting) and every single value-level defect of C05's generator (malformed names, keys, paths, versions, sizes): %d documents (+%d confusion pairs), JSON and YAML, through ParseSpec, ReadSpec, cache Refresh and every query, "+
 		"MinimumRequiredVersion/ValidateVersion, schema ValidateData/ValidateReader/ReadAndValidate/ValidateFile/Validate, and - when the document loads - InjectDevices/ApplyEdits of every device into %d OCI spec shapes; "+
 		"(b) every byte string of length 0..%d over %d structural bytes (%d strings); (c) %d stress documents; (d) documents of (a) loaded by the watcher goroutine of an auto-refresh cache in worker subprocesses. "+
 		"Oracle: no panic, no process death, a file that does not load has a cache error entry. Distinct by construction; every case is non-trivial (it is executed against all entry points)",
@@ -486,7 +493,7 @@ func main() {
 			run(Case{Kind: "doc", Base: b.Name, Doc: b.Tree})
 			refs = append(refs, docRef{jb.bi, -1})
 			nDocs.Add(1)
-			for mi, m := range gen.Confusions(b.Tree) {
+			for mi, m := range mutations(b.Tree) {
 				run(Case{Kind: "doc", Base: b.Name, Mutations: []gen.Mutation{m}, Doc: gen.Apply(b.Tree, m)})
 				nDocs.Add(1)
 				if (r.Thorough() && mi%2 == 0) || mi%4 == 0 || strings.Contains(m.Class, "list-of-null") {
@@ -541,7 +548,7 @@ func main() {
 			continue
 		}
 		if confCache[ref.bi] == nil {
-			confCache = map[int][]gen.Mutation{ref.bi: gen.Confusions(b.Tree)} // keep one base's list at a time
+			confCache = map[int][]gen.Mutation{ref.bi: mutations(b.Tree)} // keep one base's list at a time
 		}
 		m := confCache[ref.bi][ref.mi]
 		bg = append(bg, Case{Kind: "doc", Base: b.Name, Mutations: []gen.Mutation{m}}) // the document is rebuilt when it is staged
